@@ -18,7 +18,9 @@
 //	        | (empty)                         zero bytes
 //	        | (unreadable)                    a file whose read fails (chmod 000; a dangling symlink when that has no
 //	                                          effect because the process is privileged)
-//	via     = g | d | (m xNAME)               the context's loader: global file loader, dependency loader, one module loader
+//	via     = g | d | (m xNAME) | e            the context's loader: global file loader, dependency loader, one module loader;
+//	                                          e = the dependency loader of the FLAT topology: the global loader is its first
+//	                                          member and every file loader is a child of the system loader
 //	lookups = ((load xNAME) | (has xNAME) | (discover) …)
 //
 // The loaders are built the way internal/runtime.go and loader/filebased_test.go do it: a fresh system-like parented loader
@@ -154,7 +156,7 @@ func specOf(args []sx.Sexp) (s spec, err error) {
 		s.files = append(s.files, file{segs: strs(f.List[0]), body: bodyOf(f.List[1])})
 	}
 	switch {
-	case !args[2].IsList && (args[2].Atom == "g" || args[2].Atom == "d"):
+	case !args[2].IsList && (args[2].Atom == "g" || args[2].Atom == "d" || args[2].Atom == "e"):
 		s.via = args[2].Atom
 	case args[2].Tag() == "m" && len(args[2].List) == 2:
 		s.via = "m:" + args[2].List[1].MustStr()
@@ -483,9 +485,15 @@ func build(root string, s spec) *world {
 	w := &world{root: root, mods: map[string]px.ModuleLoader{}}
 	w.sys = px.NewParentedLoader(px.StaticLoader())
 	w.global = px.NewFileBasedLoader(w.sys, filepath.Join(root, "env"), "", px.PuppetDataTypePath)
-	mls := make([]px.ModuleLoader, 0, len(s.mods))
+	mls := make([]px.ModuleLoader, 0, len(s.mods)+1)
+	var parent px.Loader = w.global
+	if s.via == "e" {
+		// flat topology: the global loader is the first member of the dependency loader, nobody's parent
+		parent = w.sys
+		mls = append(mls, w.global)
+	}
 	for _, m := range s.mods {
-		ml := px.NewFileBasedLoader(w.global, filepath.Join(root, "modules", m), m, px.PuppetDataTypePath)
+		ml := px.NewFileBasedLoader(parent, filepath.Join(root, "modules", m), m, px.PuppetDataTypePath)
 		w.mods[m] = ml
 		mls = append(mls, ml)
 	}
@@ -493,7 +501,7 @@ func build(root string, s spec) *world {
 	switch {
 	case s.via == "g":
 		w.via = w.global
-	case s.via == "d":
+	case s.via == "d" || s.via == "e":
 		w.via = w.dep
 	default:
 		w.via = w.mods[s.via[2:]]
